@@ -33,6 +33,12 @@ class Case:
             self.brk = int(f[5])
 
 
+def evs_of(toks):
+    """the callback tokens, zero-count input announcements aside (C04: a segwit marker is first read as an
+    empty input list; such announcements are outside the properties)"""
+    return [v for k, v in toks if k == "ev" and v != "2,0"]
+
+
 def res_of(toks):
     r = first(toks, "res")
     if r is None:
@@ -214,8 +220,8 @@ def o_C04(ctx):
         if got[0] in ("panic", "missing"):
             continue
         r = expected_events(c)
-        exp = [R.ev_token(e) for e in r["events"]]
-        evs = allv(t, "ev")
+        exp = [x for x in (R.ev_token(e) for e in r["events"]) if x != "2,0"]
+        evs = evs_of(t)
         if evs != exp:
             i = 0
             while i < min(len(evs), len(exp)) and evs[i] == exp[i]:
@@ -297,7 +303,7 @@ def rel_pair(short, long_, v, what):
     r1, r2 = res_of(t1), res_of(t2)
     if "panic" in (r1[0], r2[0]) or "missing" in (r1[0], r2[0]):
         return
-    e1, e2 = allv(t1, "ev"), allv(t2, "ev")
+    e1, e2 = evs_of(t1), evs_of(t2)
     if e2[:len(e1)] != e1:
         v.append(([c1.id, c2.id], "%s: callbacks on the prefix (%d bytes) are not a prefix of the callbacks on the longer input (%d bytes)" % (c1.entry, len(c1.inp), len(c2.inp))))
     if r1 == ("ok",):
@@ -395,7 +401,7 @@ def o_C09(ctx):
         c0, t0 = full
         if c0.entry not in VISIT or res_of(t0)[0] in ("panic", "missing"):
             continue
-        ev0 = allv(t0, "ev")
+        ev0 = evs_of(t0)
         if res_of(t0) == ("err", 5):
             v.append(([c0.id], "%s: VisitBreak although the visitor never breaks" % c0.entry))
         bidx = [i for i, e in enumerate(ev0) if int(e.split(",")[0]) in R.BREAKABLE]
@@ -406,7 +412,7 @@ def o_C09(ctx):
             if got[0] in ("panic", "missing"):
                 continue
             i = c.brk
-            ev = allv(t, "ev")
+            ev = evs_of(t)
             # against the implementation's own never-breaking run
             if i < len(bidx):
                 exp_ev = ev0[:bidx[i] + 1]
